@@ -6,7 +6,13 @@ def hx(s):
     b = s.encode('utf-8'); return b.hex() if b else '-'
 
 SYM_CHARS = 'abcxyz019-+*/<>=!?_:'
+# names that look like numbers to a float parser or to another Lisp but are identifiers for this tokenizer
+NUMLIKE = ['inf', '-inf', '+inf', 'nan', 'NaN', '-nan', 'infinity', '-infinity', 'Inf', 'INF', '1e5', '2.5e-3', '1E5', '-1e-2', '+5', '+1.5', '1+', '1-',
+           '--1', '1.2.3', '1..2', '5e', 'e5', '1_000', '0x10', '1/2', '+', '-', '1a', '-a', '12abc', '3.x', '1.5f', '.e']
 def gen_symbol(r):
+    if r.random() < 0.06:
+        n = r.choice(NUMLIKE)
+        if not n.startswith('.'): return n
     while True:
         n = ''.join(r.choice(SYM_CHARS) for _ in range(r.choice([1, 1, 2, 3, 5])))
         if n in ('nil', 't'): continue
